@@ -33,6 +33,11 @@ pub fn run_real(md: &ModelData, text: &str, predict_tags: bool, roundtrip: bool)
     if predict_tags { predictor.store_tag_scores(true); }
     // texts of even length are predicted twice in a row on the same sentence object: the second prediction must
     // overwrite the first ("overwriting any earlier annotation"), not add to it
+    // the sentence arrives with an annotation of its own (as from a tokenized corpus line, a filter or an earlier predictor):
+    // prediction overwrites every label
+    for (i, b) in s.boundaries_mut().iter_mut().enumerate() {
+        *b = [B::WordBoundary, B::NotWordBoundary, B::Unknown][(i + text.len()) % 3];
+    }
     if text.chars().count() % 2 == 0 { predictor.predict(&mut s); }
     predictor.predict(&mut s);
     let labels: Vec<u8> = s.boundaries().iter().map(|b| *b as u8).collect();
@@ -46,6 +51,22 @@ pub fn run_real(md: &ModelData, text: &str, predict_tags: bool, roundtrip: bool)
         for (i, b) in bs.iter_mut().enumerate() {
             if (i * 7 + text.len()) % 3 == 0 {
                 *b = if *b == B::WordBoundary { B::NotWordBoundary } else { B::WordBoundary };
+            }
+        }
+    }
+    // every seventh text length: the first occurrence of each tag-model token is MADE a token by hand (as a filter would),
+    // so that long tokens, which the random models hardly ever cut out, are tagged too
+    #[cfg(feature = "tagpred")]
+    if predict_tags && (text.chars().count() % 7 == 0 || md.tag_models.iter().any(|t| t.token.chars().count() >= 20)) {
+        let chars: Vec<char> = text.chars().collect();
+        for tm in &md.tag_models {
+            let tok: Vec<char> = tm.token.chars().collect();
+            if tok.is_empty() || tok.len() > chars.len() { continue; }
+            if let Some(p) = (0..=chars.len() - tok.len()).find(|&p| chars[p..p + tok.len()] == tok[..]) {
+                let bs = s.boundaries_mut();
+                if p > 0 { bs[p - 1] = B::WordBoundary; }
+                for k in p..p + tok.len() - 1 { bs[k] = B::NotWordBoundary; }
+                if p + tok.len() - 1 < bs.len() { bs[p + tok.len() - 1] = B::WordBoundary; }
             }
         }
     }
